@@ -115,6 +115,21 @@ class Context:
                 "*": operator.mul,
                 "%": operator.mod,
             }
+            if (
+                expr.op in ("/", "%")
+                and isinstance(a, int)
+                and isinstance(b, int)
+                and b != 0
+            ):
+                # Integer division truncates toward zero, and the
+                # remainder takes the sign of the dividend (as the
+                # generated code does for non-constant operands):
+                quotient = abs(a) // abs(b)
+                if (a < 0) != (b < 0):
+                    quotient = -quotient
+                if expr.op == "/":
+                    return quotient
+                return a - b * quotient
             return ops[expr.op](a, b)
         elif isinstance(expr, ast.TypeCast):
             a = self.eval_const(expr.a)
